@@ -19,6 +19,7 @@ import (
 	"testing/synctest"
 	"time"
 
+	"github.com/coreos/etcd/raft/raftpb"
 	"github.com/coreos/etcd/wal"
 	"github.com/ethereum/go-ethereum/event"
 	"github.com/libp2p/go-libp2p-core/peer"
@@ -421,13 +422,16 @@ type cluster struct {
 	nextNonce []uint64
 	inflight  []netMsg
 	// history
-	agreed        map[uint64]string // height -> block signature first delivered anywhere
-	txHeight      map[string]uint64 // tx hash -> height in the agreed chain
-	chainNonce    map[string]uint64 // account -> next nonce expected in the agreed chain
-	submitted     int
-	lateTx        map[string]bool // transactions whose broadcast reached some pool only after they were committed
-	lastFaultStep int
-	step          int
+	agreed          map[uint64]string    // height -> block signature first delivered anywhere
+	txHeight        map[string]uint64    // tx hash -> height in the agreed chain
+	chainNonce      map[string]uint64    // account -> next nonce expected in the agreed chain
+	seenEntry       map[[3]uint64]bool   // (leader, term, index) of log entries already seen in append messages
+	lastProposed    map[[2]uint64]uint64 // (leader, term) -> height of the last batch it proposed
+	lastProposedIdx map[[2]uint64]uint64 // (leader, term) -> log index of that batch
+	submitted       int
+	lateTx          map[string]bool // transactions whose broadcast reached some pool only after they were committed
+	lastFaultStep   int
+	step            int
 }
 
 func (c *cluster) vio(oracle, discr, f string, a ...any) {
@@ -538,6 +542,7 @@ func (c *cluster) drain() {
 	// canonical order: arrival order inside the outbox depends on goroutine scheduling
 	sort.SliceStable(out, func(i, j int) bool { return out[i].key < out[j].key })
 	for _, m := range out {
+		c.observeProposals(m)
 		to := c.nodes[m.to-1]
 		from := c.nodes[m.from-1]
 		if !to.alive || !from.alive {
@@ -564,6 +569,51 @@ func (c *cluster) drain() {
 		// first quiescent point of a restarted incarnation: raft has handed out, without any help from the
 		// network, every entry below the commit index it had persisted
 		c.onReplayFinished(n)
+	}
+}
+
+// observeProposals reads the batches a leader proposes off its append messages (reach probe and diagnostics).
+func (c *cluster) observeProposals(m netMsg) {
+	rm := &raftproto.RaftMessage{}
+	if rm.Unmarshal(m.data) != nil || rm.Type != raftproto.RaftMessage_CONSENSUS {
+		return
+	}
+	msg := &raftpb.Message{}
+	if msg.Unmarshal(rm.Data) != nil || msg.Type != raftpb.MsgApp {
+		return
+	}
+	for _, e := range msg.Entries {
+		if e.Type != raftpb.EntryNormal || len(e.Data) == 0 {
+			continue
+		}
+		key := [3]uint64{m.from, e.Term, e.Index}
+		if c.seenEntry[key] {
+			continue
+		}
+		c.seenEntry[key] = true
+		if e.Term != msg.Term {
+			continue // an entry of an earlier term that the leader merely replicates
+		}
+		rb := &raftproto.RequestBatch{}
+		if rb.Unmarshal(e.Data) != nil {
+			continue
+		}
+		lt := [2]uint64{m.from, e.Term}
+		if last, ok := c.lastProposed[lt]; ok && e.Index > c.lastProposedIdx[lt] {
+			if rb.Height != last+1 {
+				cls := "gap"
+				if rb.Height <= last {
+					cls = "repeat"
+				}
+				// a diagnostic only: a freshly elected leader resets its sequence to the executed height on every Ready
+				// until the entries in flight are applied, so repeats and gaps inside a term happen by design
+				c.res.Count("diag_leader_batch_sequence_" + cls + "_within_a_term")
+			}
+		}
+		if e.Index > c.lastProposedIdx[lt] {
+			c.lastProposed[lt], c.lastProposedIdx[lt] = rb.Height, e.Index
+			c.res.Count("probe_leader_proposals_observed")
+		}
 	}
 }
 
@@ -827,7 +877,7 @@ func runCluster(cfg OConfig, seed uint64, res *sim.Result, tp *tape, base string
 	if cfg.Accounts < 1 {
 		cfg.Accounts = 1
 	}
-	c := &cluster{cfg: cfg, res: res, tp: tp, base: base, agreed: map[uint64]string{}, txHeight: map[string]uint64{}, lateTx: map[string]bool{}, chainNonce: map[string]uint64{}}
+	c := &cluster{cfg: cfg, res: res, tp: tp, base: base, agreed: map[uint64]string{}, txHeight: map[string]uint64{}, lateTx: map[string]bool{}, chainNonce: map[string]uint64{}, seenEntry: map[[3]uint64]bool{}, lastProposed: map[[2]uint64]uint64{}, lastProposedIdx: map[[2]uint64]uint64{}}
 	c.net = &simNet{nodes: map[uint64]*onode{}, cut: map[[2]uint64]bool{}, seed: seed, stats: map[string]int64{}, pFail: 100}
 	for i := 0; i < cfg.Accounts; i++ {
 		b := make([]byte, 20)
